@@ -59,6 +59,13 @@ func runSync(args []string) (map[string]any, error) {
 		tid++
 		exec.RunSync(w, st, tid, exec.GenSyncPlan(r), r)
 	}
+	// large-scope plans (donor stores of several hundred nodes), one per repair mechanism
+	if *c.n > 0 {
+		for _, via := range []string{"mergestate", "mergedb"} {
+			tid++
+			exec.RunSync(w, st, tid, exec.GenSyncPlanBig(r, via), r)
+		}
+	}
 	if err := w.Close(); err != nil {
 		return nil, err
 	}
